@@ -8,6 +8,7 @@
 From Coq Require Import ZArith List Bool Lia.
 Import ListNotations.
 From VIsa Require Import IsaState ExecImpl ExecSpec ExecImplV ExecSpecV ExecProofs ExecRows ExecVProofs ExecVRowsA ExecBrev ExecVProofs64 ExecVRows64 ExecVThm ExecRefute.
+From VIsa Require Import ExecImplM ExecSpecM ExecMProofs ExecMFlat ExecMDs ExecMThm.
 (* binary32 part (last section of this file): Flocq; these imports do not change the assumptions of the theorems above *)
 From VIsa Require Import IsaFloat ExecImplF ExecSpecF ExecFRows ExecFThm.
 Open Scope Z_scope.
@@ -226,6 +227,81 @@ Proof.
     unfold vadm, admv, is_vgpr; cbn; repeat split; auto; intros; try lia; left; reflexivity.
 Qed.
 
+
+(** * Memory instructions (SMEM / FLAT-GLOBAL / DS) over the byte maps [mem] and [lds].
+    [exec_mem] transcribes the Go handlers (sequential lane loop, storage
+    accessor = byte map modulo 2^64, LDS = slice of [lsz] bytes); [exec_spec_mem]
+    the manuals (address computation, EXEC masking, frame).  [agree_m]: both are
+    defined and the resulting states are extensionally equal, memory included. *)
+Theorem impl_eq_spec_smem : forall a lsz st i k, i_fmt i = F_SMEM ->
+  In (i_op i, k) [(0, 1); (1, 2); (2, 4); (3, 8); (4, 16)] ->      (* s_load_dword, x2, x4, x8, x16 *)
+  0 <= i_src0 i <= 100 -> 0 <= i_dst i -> i_dst i + k <= 102 ->
+  (i_src1 i = 255 \/ 0 <= i_src1 i <= 101) -> agree_m a lsz st i.
+Proof. exact smem_agree. Qed.
+Print Assumptions impl_eq_spec_smem.
+
+(** flat/global loads: ubyte, sbyte, ushort, dword, x2, x3, x4 *)
+Theorem impl_eq_spec_flat_load : forall a lsz st i k val, i_fmt i = F_FLAT -> wf st ->
+  flat_load_row (i_op i) = Some (k, val) -> flat_ok a i = true -> vrange_ok (i_dst i) k = true ->
+  agree_m a lsz st i.
+Proof. exact flat_load_agree. Qed.
+Print Assumptions impl_eq_spec_flat_load.
+
+(** flat/global stores: dword, x2, x3, x4 *)
+Theorem impl_eq_spec_flat_store : forall a lsz st i k, i_fmt i = F_FLAT -> wf st ->
+  flat_store_row (i_op i) = Some k -> flat_ok a i = true -> vrange_ok (i_src1 i) k = true ->
+  agree_m a lsz st i.
+Proof. exact flat_store_agree. Qed.
+Print Assumptions impl_eq_spec_flat_store.
+
+Theorem impl_eq_spec_ds_read : forall a lsz st i k, i_fmt i = F_DS ->
+  In (i_op i, k) [(54, 1); (118, 2); (255, 4)] -> (i_op i = 255 -> a = CDNA3) ->
+  vrange_ok (i_src0 i) 1 = true -> vrange_ok (i_dst i) k = true ->
+  ds_inside st lsz (fun l => ds_ea st i l (ds_off0 i)) (4 * k) = true ->
+  agree_m a lsz st i.
+Proof. exact ds_read_agree. Qed.
+Print Assumptions impl_eq_spec_ds_read.
+
+Theorem impl_eq_spec_ds_read2 : forall a lsz st i k, i_fmt i = F_DS ->
+  In (i_op i, k) [(55, 1); (119, 2)] ->
+  vrange_ok (i_src0 i) 1 = true -> vrange_ok (i_dst i) (2 * k) = true ->
+  ds_inside st lsz (fun l => ds_ea st i l (ds_off0 i * (4 * k))) (4 * k) = true ->
+  ds_inside st lsz (fun l => ds_ea st i l (ds_off1 i * (4 * k))) (4 * k) = true ->
+  agree_m a lsz st i.
+Proof. exact ds_read2_agree. Qed.
+Print Assumptions impl_eq_spec_ds_read2.
+
+Theorem impl_eq_spec_ds_write : forall a lsz st i k, i_fmt i = F_DS ->
+  In (i_op i, k) [(13, 1); (223, 4)] -> (i_op i = 223 -> a = CDNA3) ->
+  vrange_ok (i_src0 i) 1 = true -> vrange_ok (i_src1 i) k = true ->
+  ds_inside st lsz (fun l => ds_ea st i l (ds_off0 i)) (4 * k) = true ->
+  agree_m a lsz st i.
+Proof. exact ds_write_agree. Qed.
+Print Assumptions impl_eq_spec_ds_write.
+
+Theorem impl_eq_spec_ds_write2 : forall a lsz st i k, i_fmt i = F_DS ->
+  In (i_op i, k) [(14, 1); (78, 2)] ->
+  vrange_ok (i_src0 i) 1 = true -> vrange_ok (i_src1 i) k = true -> vrange_ok (i_src2 i) k = true ->
+  ds_inside st lsz (fun l => ds_ea st i l (ds_off0 i * (4 * k))) (4 * k) = true ->
+  ds_inside st lsz (fun l => ds_ea st i l (ds_off1 i * (4 * k))) (4 * k) = true ->
+  agree_m a lsz st i.
+Proof. exact ds_write2_agree. Qed.
+Print Assumptions impl_eq_spec_ds_write2.
+
+(** non-vacuity: global_load_dword v3, v[0:1], off offset:4 with EXEC = 1 reads
+    the little-endian dword at v[0:1] + 4 of lane 0 into v3 of lane 0 *)
+Example ex_mem_state : state :=
+  mkState (fun _ => 0) (fun l r => if (l =? 0) && (r =? 0) then 4096 else 0) 1 0 0 0 1024
+          (fun x => if x =? 4100 then 120 else if x =? 4101 then 86 else if x =? 4102 then 52 else if x =? 4103 then 18 else 0)
+          (fun _ => 0).
+Example ex_mem_load :
+  let i := mkInst F_FLAT 20 256 256 127 259 4 0 in
+  flat_ok CDNA3 i = true /\ vrange_ok (i_dst i) 1 = true /\
+  match exec_mem CDNA3 256 ex_mem_state i, exec_spec_mem CDNA3 256 ex_mem_state i with
+  | Some s1, Some s2 => vgpr s1 0 3 = 305419896 /\ vgpr s2 0 3 = 305419896 /\ vgpr s1 1 3 = 0
+  | _, _ => False
+  end.
+Proof. vm_compute. repeat split; reflexivity. Qed.
 
 (** * Binary32 instructions (Flocq).
     Everything above this line is closed under the global context.  The
